@@ -537,8 +537,19 @@ pub fn run_check(ctx: &Ctx) -> Report {
     };
     let corpus = corpus_programs();
     rep.extra.insert("corpus_programs".into(), json!(corpus.len()));
+    let t0 = std::time::Instant::now();
+    let phase = |name: &str| {
+        if std::env::var("NLV_PHASES").is_ok() {
+            eprintln!("C05 phase {name} done at {:.1}s ({})", t0.elapsed().as_secs_f64(), crate::report::current_profile());
+        }
+    };
     // directed corpus
     for (family, text) in directed() {
+        // (the unoptimised build leaves out the inputs whose only point is a table with more than 65 535 entries: an order of
+        // magnitude slower there, and no different)
+        if plain && family == "limits" {
+            continue;
+        }
         rep.eval();
         rep.count(&format!("directed:{family}"));
         rep.nontrivial(&text);
@@ -549,6 +560,7 @@ pub fn run_check(ctx: &Ctx) -> Report {
         }
     }
     rep.sample(json!({"directed": "functie f() { 1 } f(1, 2)"}));
+    phase("directed");
     // deep nesting on a thread with the default stack size
     // this thread only waits for the threads below
     crate::engine::note_current("done", "");
@@ -572,43 +584,65 @@ pub fn run_check(ctx: &Ctx) -> Report {
             rep.violation(v);
         }
     }
+    phase("deep-nesting");
     // inputs that are large in one dimension, on a thread with the default stack size; results are not inspected
-    for (name, text, budget) in scale_inputs(plain) {
-        rep.eval();
-        rep.count("directed:scale");
-        rep.nontrivial(&name);
-        let tx = text.clone();
-        let started = std::time::Instant::now();
-        let h = std::thread::Builder::new().stack_size(8 << 20).spawn(move || {
-            crate::engine::install_gc_observer();
-            crate::engine::SMALL_STACK.with(|s| s.set(true));
-            let o = crate::engine::run_eval_shallow(&tx, budget);
-            let c = classify(&o);
-            crate::engine::note_current("done", "");
-            (o, c)
-        });
-        let (o, c) = h.expect("spawn").join().expect("join");
-        rep.count(&format!("scale-stage:{}", stage(&o)));
-        if std::env::var("NLV_SCALE_TIMES").is_ok() {
-            eprintln!("{name}: {:.1}s {}", started.elapsed().as_secs_f64(), stage(&o));
-        }
-        if let Some(c) = c {
-            let mut v = viol("scale", c, &text, &o);
-            v.case = json!({"text": text, "family": name, "budget": budget, "shallow": true});
-            v.observed = v.observed.chars().take(600).collect();
-            rep.violation(v);
+    // (eight at a time, each on a thread of its own with the default stack size)
+    let scale = std::sync::Arc::new(scale_inputs(plain));
+    let lanes = 8usize;
+    let mut handles = Vec::new();
+    for lane in 0..lanes {
+        let scale = scale.clone();
+        handles.push(std::thread::spawn(move || {
+            let mut results = Vec::new();
+            for (k, (name, text, budget)) in scale.iter().enumerate() {
+                if k % lanes != lane {
+                    continue;
+                }
+                let (tx, budget) = (text.clone(), *budget);
+                let started = std::time::Instant::now();
+                let h = std::thread::Builder::new().stack_size(8 << 20).spawn(move || {
+                    crate::engine::install_gc_observer();
+                    crate::engine::SMALL_STACK.with(|s| s.set(true));
+                    let o = crate::engine::run_eval_shallow(&tx, budget);
+                    let c = classify(&o);
+                    crate::engine::note_current("done", "");
+                    (o, c)
+                });
+                let (o, c) = h.expect("spawn").join().expect("join");
+                if std::env::var("NLV_SCALE_TIMES").is_ok() {
+                    eprintln!("{name}: {:.1}s {}", started.elapsed().as_secs_f64(), stage(&o));
+                }
+                results.push((k, o, c));
+            }
+            results
+        }));
+    }
+    for h in handles {
+        for (k, o, c) in h.join().expect("scale lane") {
+            let (name, text, budget) = &scale[k];
+            rep.eval();
+            rep.count("directed:scale");
+            rep.nontrivial(name);
+            rep.count(&format!("scale-stage:{}", stage(&o)));
+            if let Some(c) = c {
+                let mut v = viol("scale", c, text, &o);
+                v.case = json!({"text": text, "family": name, "budget": budget, "shallow": true});
+                v.observed = v.observed.chars().take(600).collect();
+                rep.violation(v);
+            }
         }
     }
     if std::env::var("NLV_C05_ONLY").as_deref() == Ok("scale") {
         return rep;
     }
     rep.sample(json!({"scale": "stel a = []; stel i = 0; zolang i < 200000 { a = [i, a]; i += 1 }; functie f() { 1 }; f()"}));
+    phase("scale");
     // complete truncation of the corpus programs
     let mut truncs = 0u64;
     for prog in &corpus {
         let bytes = prog.as_bytes();
         let limit = bytes.len().min(1200);
-        for cut in 0..=limit {
+        for cut in (0..=limit).step_by(if plain { 5 } else { 1 }) {
             let text = String::from_utf8_lossy(&bytes[..cut]).to_string();
             rep.eval();
             truncs += 1;
@@ -624,7 +658,8 @@ pub fn run_check(ctx: &Ctx) -> Report {
             }
         }
     }
-    rep.count_n("truncations-complete", truncs);
+    rep.count_n(if plain { "truncations-every-5th-offset" } else { "truncations-complete" }, truncs);
+    phase("truncations");
     // the unoptimised build runs a share of the generated inputs (it is an order of magnitude slower)
     let cases = if plain { ctx.pick(40_000u32, 600_000u32) } else { ctx.pick(300_000u32, 8_000_000u32) } / ctx.shards as u32;
     let seed = ctx.seed;
@@ -675,12 +710,15 @@ pub fn run_check(ctx: &Ctx) -> Report {
             }
         }
     });
+    phase("generated");
     if let Some(h) = plain_run {
         out.merge(h.join().expect("inner run"));
     }
+    phase("plain-joined");
     if !plain && std::env::var("NLV_NO_CLI").is_err() {
         cli_driver(&mut out, ctx);
     }
+    phase("command-line");
     out
 }
 
